@@ -3,6 +3,7 @@
 //! the implementation's observable outcome.
 extern crate anoncreds;
 
+mod c10;
 mod c11;
 mod c12d;
 mod c14;
@@ -42,6 +43,7 @@ fn main() {
         "C16" => c16::run(tier, seed, outdir),
         "C01" | "C02" | "C03" | "C05" | "C06" | "C08" | "C12" => vcases::run(prop, tier, seed, outdir),
         "C04" | "C07" => pcases::run(prop, tier, seed, outdir),
+        "C10" => c10::run(tier, seed, outdir),
         "C11" => c11::run(tier, seed, outdir),
         "C14" => c14::run(tier, seed, outdir),
         "C19" => c19::run(tier, seed, outdir),
